@@ -279,7 +279,14 @@ class RenderShift(Stream):
             base = sg.merge_rows(sg.impl_rows(sc))
             mod = sg.merge_rows(sg.impl_rows(sc % mk_ton(case["t"])))
             octv = sg.merge_rows(sg.impl_rows(sc.o(case["k"])))
-            return {"base": base, "mod": mod, "oct": octv, "tracks": list(dict.fromkeys(nm for c in case["score"] for nm, _ in c["parts"]))}
+            # every chord through Chord.transpose(j) (j semitones, a method of its own: the tonality degree is moved, not a tonality added)
+            from musiclang import Score
+            j = case["t"]["deg"] + 12 * case["t"]["oct"] + case["k"]
+            try:
+                tr = sg.merge_rows(sg.impl_rows(Score([c.transpose(j) for c in sc.chords])))
+            except AttributeError:
+                tr = None                     # a chord without a tonality has no degree to move
+            return {"base": base, "mod": mod, "oct": octv, "tr": tr, "j": j, "tracks": list(dict.fromkeys(nm for c in case["score"] for nm, _ in c["parts"]))}
         return mlang.guarded(f)
 
     @staticmethod
@@ -329,6 +336,14 @@ class RenderShift(Stream):
                     return {"sig": "score-modulation-interval", "msg": f"part {nm}: {[x[0] for x in b][:8]} -> {[x[0] for x in m][:8]}, expected +{d}"}
             if cls == "free" and [x[0] for x in b] != [x[0] for x in m]:
                 return {"sig": "score-modulation-moves-absolute", "msg": f"part {nm}"}
+            if r.get("tr") is not None:
+                tr = r["tr"].get(i, [])
+                if [x[1:] for x in b] != [x[1:] for x in tr]:
+                    return {"sig": "transposition-changes-timing", "msg": f"part {nm} (Chord.transpose)"}
+                if cls == "relative" and [x[0] + r["j"] for x in b] != [x[0] for x in tr]:
+                    return {"sig": "chord-transpose-interval", "msg": f"part {nm}: transpose({r['j']}): {[x[0] for x in b][:8]} -> {[x[0] for x in tr][:8]}"}
+                if cls == "free" and [x[0] for x in b] != [x[0] for x in tr]:
+                    return {"sig": "chord-transpose-moves-absolute", "msg": f"part {nm}"}
             # Score.o(k) raises the melodies: s h c b a move by 12k, drums and relative notes do not
             # (a relative note is not rewritten: it follows its reference, which moved by 12k, inside an octave-periodic system)
             if cls in ("relative", "free") and not nm.startswith("drums"):
